@@ -122,6 +122,10 @@ func c14Patterns(g *gen.G, r interface{ IntN(int) int }, recs []fsx.Rec) []strin
 		pats = append(pats, strings.Join(parts, "/"))
 	}
 	pats = append(pats, "/w/a\\", "/w\\/a", "/w/\\zz", "\\w")
+	// doubled separators: at the very start (what dir+"/*" gives for dir "/"), in the middle, before and after a
+	// metacharacter, trailing (a trailing separator after a literal name is left out: the kernel refuses it on a file,
+	// the emulation reads it as its Clean() form by the convention stated in C01)
+	pats = append(pats, "//*", "//w/*", "//*/a", "//[w]", "//w", "///*", "/w//*", "/w//a*", "/w/*//a", "/w/*/", "/w/a*/", "//", "//w//*//*")
 	return pats
 }
 
@@ -188,6 +192,11 @@ func c14Compare(c *rt.Ctx, l *lockstep, name string, v avfs.VFS, fsType string, 
 				}
 			}
 			gb = kept
+			if len(gb) == 0 {
+				// only the harness's own nonce entry matched (its name is random: a link to "/" and a pattern such as
+				// *a meet it in one run out of sixteen): no match is reported as nil
+				gb = nil
+			}
 		}
 		cls := "plain"
 		switch {
